@@ -79,7 +79,9 @@ impl ThreadKey {
 		// safety: if this code changes, check to ensure the requirement for
 		//         the Drop implementation is still true
 		KEY.with(|key| {
-			key.try_lock().then_some(Self {
+			// `then`, not `then_some`: an eagerly built key would be dropped when the
+			// lock is already taken, and dropping a key unlocks the cell
+			key.try_lock().then(|| Self {
 				phantom: PhantomData,
 			})
 		})
